@@ -185,6 +185,17 @@ impl<T: BasicDataCustom, Companion: BasicDataCompanion<T>> BasicGarnishData<T, C
     pub open spec fn building_len(&self, li: usize) -> usize { match self.data_view()[li as int] { BasicData::UninitializedList(len, _) => len, _ => 0 } }
     pub open spec fn building_count(&self, li: usize) -> usize { match self.data_view()[li as int] { BasicData::UninitializedList(_, c) => c, _ => 0 } }
 
+    /// a text / byte list / symbol list header at `addr` announces elements that lie inside the data table
+    pub open spec fn seq_wf(&self, addr: usize) -> bool {
+        let v = self.data_view();
+        addr < v.len() ==> (match v[addr as int] {
+            BasicData::CharList(n) => addr + 1 + n <= v.len(),
+            BasicData::ByteList(n) => addr + 1 + n <= v.len(),
+            BasicData::SymbolList(n) => addr + 1 + n <= v.len(),
+            _ => true,
+        })
+    }
+
     /// the three stacks threaded through the data table are well formed
     pub open spec fn stacks_ok(&self) -> bool {
         reg_ok(self.data_view(), self.current_register) && val_ok(self.data_view(), self.current_value) && frame_ok(self.data_view(), self.current_frame)
